@@ -199,9 +199,6 @@ fn corpus(quick: bool) -> Vec<Prog> {
     ];
     let alpha_n = if quick { alpha.len() } else { alpha.len() };
     for (si, s) in starts.iter().enumerate() {
-        if quick && si == 1 {
-            continue;
-        }
         let long_div = si == 2;
         for a in alpha.iter().take(alpha_n) {
             for b in alpha.iter().take(alpha_n) {
@@ -224,9 +221,9 @@ fn corpus(quick: bool) -> Vec<Prog> {
             }
         }
     }
-    // thorough: all three-instruction sequences over a reduced alphabet (one per micro-routine family)
-    if !quick {
-        let red: Vec<&(&str, Vec<u8>)> = alpha.iter().filter(|a| ["EI", "PUSH", "POP", "CALL", "RET", "RETI", "DEC((R2+))", "MUL", "DIV", "MOV (R2+),R0", "MOV R1,((R2+))", "BITC", "LDSP", "LDFR", "STOP", "SWI"].contains(&a.0)).collect();
+    // all three-instruction sequences; quick: over a reduced alphabet (one per micro-routine family), thorough: over the whole alphabet
+    {
+        let red: Vec<&(&str, Vec<u8>)> = alpha.iter().filter(|a| !quick || ["EI", "PUSH", "POP", "CALL", "RET", "RETI", "DEC((R2+))", "MUL", "DIV", "MOV (R2+),R0", "MOV R1,((R2+))", "BITC", "LDSP", "LDFR", "STOP", "SWI"].contains(&a.0)).collect();
         for a in &red {
             for b in &red {
                 for c in &red {
@@ -599,7 +596,7 @@ pub fn run() {
     ctx.set("distinct_nontrivial", all.hist.len() as u64 + hang_undefined.len() as u64);
     ctx.set("rule", "state = real machine after e clock edges into a corpus program (e = 0..run length), x {interrupt just triggered, not} x {Real, Assembly mode}; at each state one (every 7th: three) assembly step(s) on a clone must equal the specification twin clocked edge by edge (whole-Machine equality modulo the mode flag); distinct_nontrivial = distinct step lengths (10-edge buckets) + predicted non-returning opcode cases");
     ctx.set("exhaustive", true);
-    ctx.set("bounds", format!("{} corpus programs (all ordered pairs of a 35-instruction alphabet from {} start states, thorough: all triples of a 16-instruction alphabet, + 4 supervised programs), every edge 0..70/110/120; termination: all 256 first bytes and 4 x 256 second bytes, first three steps; twin bound 4096 edges with exact state-cycle detection", progs.len(), if quick { 2 } else { 3 }));
+    ctx.set("bounds", format!("{} corpus programs (all ordered pairs of a 35-instruction alphabet from {} start states, all triples of a {}-instruction alphabet, + 4 supervised programs), every edge 0..70/110/120; termination: all 256 first bytes and 4 x 256 second bytes, first three steps; twin bound 4096 edges with exact state-cycle detection", progs.len(), 3, if quick { 16 } else { 35 }));
     let mut h = Json::obj();
     for (k, v) in &all.hist {
         h.set(&format!("{}-{}", k, k + 9), *v);
